@@ -11,6 +11,8 @@ pub const PROP_NAMES: &[&str] = &[
     "name", "value", "count", "kind", "ident", "items", "data", "flag", "left", "right", "size",
     "label", "first", "second", "amount", "weight", "color", "shape", "owner", "state", "zone",
     "fooBar", "foo_baz", "x", "y", "z", "q1", "payload", "meta", "next", "prev", "child", "parent",
+    // names whose Rust identifier differs from the JSON name (serde rename needed)
+    "user-name", "retryCount", "Kind", "content-type", "itemList", "X-Trace",
 ];
 
 pub const ENUM_VALUES: &[&str] = &[
